@@ -102,6 +102,8 @@ impl Bracket {
             complement: false,
             items: Vec::new(),
         };
+        // Whether the last item is a quoted hyphen, which is never a range operator
+        let mut quoted_hyphen = false;
         while let Some(pc) = i.next() {
             match pc {
                 PatternChar::Normal(']') if !bracket.items.is_empty() => return Some((bracket, i)),
@@ -120,7 +122,10 @@ impl Bracket {
                 }
                 c => bracket.items.push(Atom(Char(c.char_value()))),
             }
-            make_range(&mut bracket.items);
+            if !quoted_hyphen {
+                make_range(&mut bracket.items);
+            }
+            quoted_hyphen = pc == PatternChar::Literal('-');
         }
         None
     }
